@@ -240,7 +240,7 @@ Fixpoint assoc_last {A} (kvs : list (nat * A)) (k : nat) : option A :=
 Fixpoint distinct_keys {A} (kvs : list (nat * A)) : list nat :=
   match kvs with
   | [] => []
-  | (k, _) :: t => if mem k (distinct_keys t) then distinct_keys t else k :: distinct_keys t
+  | (k, _) :: t => let r := distinct_keys t in if mem k r then r else k :: r
   end.
 
 Fixpoint collect_slots {A} (kvs : list (nat * A)) (ks : list nat) : option (list A) :=
